@@ -505,19 +505,19 @@ LUA_VARS = [('vs', 'string', "'draft'"), ('vn', 'number', '7'), ('vb', 'boolean'
             ('vm', 'nested-table', "{a={b=1},c='x'}"), ('vd', 'numeric-string', "'42'"), ('ve', 'empty-string', "''"), ('vu', 'unset', None)]
 # (kind, Lua expression); 'initial' and 'other-type' are filled in per variable
 LUA_VALUES = [('empty-string', "''"), ('empty-table', '{}'), ('zero', '0'), ('false', 'false'), ('nil', 'nil'), ('string-zero', "'0'"),
-              ('initial', None), ('other-type', None), ('float', '1.5'), ('negative', '-3'), ('big-integer', '9007199254740993'),
+              ('same-as-initial', None), ('other-type', None), ('float', '1.5'), ('negative', '-3'), ('big-integer', '9007199254740993'),
               ('string-nil', "'nil'"), ('string-true', "'true'"), ('string-braces', "'{}'"), ('string-float', "'1.0'"), ('string-space', "' '"),
               ('string-quote', "'a\"b'"), ('map', '{x=1}'), ('array-of-strings', "{'a','b'}"), ('mixed-table', '{1,x=2}'),
               ('empty-table-inside', '{a={}}'), ('empty-table-inside', '{{},1}'), ('nil-in-array', '{1,nil,3}')]
 PML_VARS = [('pi', 'int', '5'), ('pb', 'bool', 'true'), ('pz', 'int', '0'), ('py', 'byte', '3')]
-PML_VALUES = [('zero', '0'), ('false', 'false'), ('one', '1'), ('true', 'true'), ('initial', None), ('sum', '(2+3)')]
+PML_VALUES = [('zero', '0'), ('false', 'false'), ('one', '1'), ('true', 'true'), ('same-as-initial', None), ('sum', '(2+3)')]
 
 
 def doc_values(dm, var):
     vid, vkind, init = var
     out = []
     for kind, e in (LUA_VALUES if dm == 'lua' else PML_VALUES):
-        if kind == 'initial':
+        if kind == 'same-as-initial':
             e = init if init is not None else 'nil'
         elif kind == 'other-type':
             e = '5' if vkind in ('string', 'numeric-string', 'empty-string') else "'other'"
@@ -563,6 +563,11 @@ def doc_line(eng, xml, k, hist):
 def build_doc_cases():
     """(datamodel, variables of the document, variable under test, index of the value, kind of the value, history)"""
     cases = []
+    # corpus first: literal documents (regressions, witnesses of known findings)
+    for d in json.load(open(os.path.join(ROOT, 'corpus', 'c14.json'))).get('documents', []):
+        var = tuple(d['var'])
+        cases.append({'dm': d['dm'], 'vars': [var], 'var': var, 'n': d['n'], 'kind': d['kind'], 'expr': d['expr'], 'hist': list(d['history']),
+                      'xml': d['scxml'], 'origin': 'corpus:' + d['name']})
     for dm, vars_ in (('lua', LUA_VARS), ('promela', PML_VARS)):
         for var in vars_:
             for n, (kind, e) in enumerate(doc_values(dm, var)):
@@ -571,7 +576,7 @@ def build_doc_cases():
         # all variables in one document: the value of one is changed, every one is looked at afterwards
         for var in vars_:
             for n, (kind, e) in enumerate(doc_values(dm, var)):
-                if kind in ('empty-string', 'empty-table', 'nil', 'false', 'zero', 'initial'):
+                if kind in ('empty-string', 'empty-table', 'nil', 'false', 'zero', 'same-as-initial'):
                     cases.append({'dm': dm, 'vars': list(vars_), 'var': var, 'n': n, 'kind': kind, 'expr': e,
                                   'hist': ['set.%s.%d' % (var[0], n), 'show'] + ['chk.%s' % v[0] for v in vars_] + ['snd.%s' % var[0]]})
     return cases
@@ -602,29 +607,31 @@ def doc_readable(tokens):
 
 
 def judge_doc(case, f):
-    """failure classes of one snapshot/continuation pair of the document stream"""
+    """failure classes of one snapshot/continuation pair of the document stream: list of (class, variable, index of
+    the assigned value or None when the variable still has its initial value)"""
     assigned = ('EV:' + case['hist'][0].encode().hex()) in f.get('PRE', '').split()
     kind = case['kind'] if assigned else 'initial:' + case['var'][1]
+    me = (case['var'], case['n'] if assigned else None)
     if 'SERFAIL' in f:
-        return ['serialize-throws:' + kind]
+        return [('serialize-throws:' + kind,) + me]
     if 'DESERFAIL' in f:
-        return ['deserialize-throws:' + kind]
+        return [('deserialize-throws:' + kind,) + me]
     if 'RES' not in f or 'ORIG' not in f:
-        return ['no-output']
+        return [('no-output',) + me]
     od, rd = doc_data(f.get('OD')), doc_data(f.get('RD'))
     if toks(f['ORIG']) == toks(f['RES']) and od == rd:
         return []
     bad = [v for v in od if od.get(v) != rd.get(v)]
     if not bad or case['var'][0] in bad:
-        return ['data-value-not-restored:' + kind]
-    kinds = dict((v[0], v[1]) for v in case['vars'])
-    return ['data-value-not-restored:initial:' + kinds.get(v, '?') for v in bad]
+        return [('data-value-not-restored:' + kind,) + me]
+    byid = dict((v[0], v) for v in case['vars'])
+    return [('data-value-not-restored:initial:' + byid[v][1], byid[v], None) for v in bad if v in byid]
 
 
 def run_doc_stream(c, vd, engines):
     """returns (classes: class -> list of (case, engine, k, fields, xml), number of pairs, distribution)"""
     cases = build_doc_cases()
-    xmls = [document(x['dm'], x['vars']) for x in cases]
+    xmls = [x.get('xml') or document(x['dm'], x['vars']) for x in cases]
     probe, pidx = [], []
     for ci, x in enumerate(cases):
         for eng in engines:
@@ -646,28 +653,29 @@ def run_doc_stream(c, vd, engines):
             o = o.split(' || ', 1)[1]
         dist['by_datamodel'][x['dm']] = dist['by_datamodel'].get(x['dm'], 0) + 1
         if o.startswith('CRASH') or o.startswith('EXC') or o.startswith('ERR'):
-            classes.setdefault('crash:' + x['kind'], []).append((x, eng, k, {}, xmls[ci]))
+            classes.setdefault('crash:' + x['kind'], []).append((x, eng, k, {}, xmls[ci], x['var'], x['n']))
             continue
         f = fields(o)
         assigned = ('EV:' + x['hist'][0].encode().hex()) in f.get('PRE', '').split()
         kd = x['kind'] if assigned else 'initial:' + x['var'][1]
         dist['by_value_kind_at_snapshot'][kd] = dist['by_value_kind_at_snapshot'].get(kd, 0) + 1
-        for cls in judge_doc(x, f):
-            classes.setdefault(cls, []).append((x, eng, k, f, xmls[ci]))
+        for cls, var, n in judge_doc(x, f):
+            classes.setdefault(cls, []).append((x, eng, k, f, xmls[ci], var, n))
     return classes, len(pairs), dist
 
 
-def minimal_doc_replay(vd, x, eng, k, f, xml):
-    """the smallest document that still shows the failure: only the variable under test and only the assigned value"""
-    small = document(x['dm'], [x['var']], only_value=x['n'])
-    hist = [x['hist'][0], 'show', 'chk.%s' % x['var'][0], 'snd.%s' % x['var'][0]]
+def minimal_doc_replay(vd, x, eng, k, f, xml, var, n, cls):
+    """the smallest document that still shows the failure: only the failing variable and only the assigned value"""
+    small = document(x['dm'], [var], only_value=(n if n is not None else -1))
+    hist = (['set.%s.%d' % (var[0], n)] if n is not None else []) + ['show', 'chk.%s' % var[0], 'snd.%s' % var[0]]
+    probe = {'dm': x['dm'], 'vars': [var], 'var': var, 'n': n, 'kind': x['kind'], 'hist': hist if n is not None else ['-'] + hist}
     try:
         rc, o, _ = run_lines(vd, [doc_line(eng, small, 9999, hist)], timeout=60)
         nb = fields(o[0]).get('nb') or 0
         rc, outs, _ = run_lines(vd, [doc_line(eng, small, kk, hist) for kk in range(nb)], timeout=120)
         for kk, o in enumerate(outs):
             f2 = fields(o)
-            if judge_doc(dict(x, vars=[x['var']], hist=hist), f2):
+            if any(c2.split(':')[0] == cls.split(':')[0] for c2, _, _ in judge_doc(probe, f2)):
                 return small, hist, kk, f2
     except Exception:
         pass
@@ -1003,10 +1011,10 @@ def run(c):
         if kf:
             c.known(kf['id'], kf['what'] + ' (%d snapshot points of the document stream this run)' % len(hits))
             continue
-        x, eng, k, f, xml = sorted(hits, key=lambda h: (len(h[4]), h[2], h[1]))[0]
-        xml, dh, k, f = minimal_doc_replay(vd, x, eng, k, f, xml)
+        x, eng, k, f, xml, var, n = sorted(hits, key=lambda h: (len(h[4]), h[2], h[1]))[0]
+        xml, dh, k, f = minimal_doc_replay(vd, x, eng, k, f, xml, var, n, cls)
         c.violation({'kind': 'oracle', 'class': cls, 'count': len(hits), 'stream': 'documents', 'engine': eng, 'datamodel': x['dm'],
-                     'variable': x['var'][0], 'initial_value': x['var'][2], 'assigned_value': x['expr'], 'history': dh, 'snapshot_point_k': k,
+                     'variable': var[0], 'initial_value': var[2], 'assigned_value': (doc_values(x['dm'], var)[n][1] if n is not None else None), 'history': dh, 'snapshot_point_k': k,
                      'scxml': xml,
                      'expected': 'the resumed interpreter continues exactly as the original: same trace (log output, cond, payload), same final values',
                      'observed_original': doc_readable(f.get('ORIG', ''))[:900], 'observed_resumed': doc_readable(f.get('RES', ''))[:900] or str(f)[:600],
